@@ -25,8 +25,9 @@ except ImportError:
 
 def _get_color_from_string(a_string: str, colors: bool):
     if colors:
-        hash_str = f"{crc32(a_string.encode('utf-8'))}"
-        return f"#{hash_str[2:8]}"
+        # always six hexadecimal digits (the decimal digits of a short checksum, that
+        # of the empty string for a task without resource, do not make a color)
+        return f"#{crc32(a_string.encode('utf-8')) & 0xFFFFFF:06X}"
     return "#F0F0F0"
 
 
